@@ -2,7 +2,9 @@ package props
 
 import (
 	"fmt"
+	"hash/fnv"
 	"strings"
+	"sync"
 
 	"github.com/xjslang/xjs/ast"
 	"github.com/xjslang/xjs/compiler"
@@ -21,15 +23,87 @@ type Mode struct {
 
 var allModes = []Mode{{}, {Tolerant: true}, {Smart: true}, {Tolerant: true, Smart: true}}
 
+// newParser builds a parser the way the property's checks need it - and, for
+// half of the inputs (chosen by a hash of the text, so that a replay does the
+// same), the way a larger application would: the lexer builder has already been
+// used by another parser builder that is configured the other way round, and
+// the modes are set with the chained call style instead of the statement style.
+// None of this may make a difference.
 func newParser(src string, m Mode) *parser.Parser {
-	pb := parser.NewBuilder(lexer.NewBuilder())
-	if m.Tolerant {
-		pb.WithTolerantMode(true)
+	otherUsers()
+	h := fnv.New32a()
+	h.Write([]byte(src))
+	bits := h.Sum32()
+	lb := lexer.NewBuilder()
+	if bits&1 == 1 {
+		sib := parser.NewBuilder(lb)
+		sib.WithTolerantMode(!m.Tolerant)
+		sib.WithSmartSemicolon(!m.Smart)
+		sib.Build("sibling(1)\n{ \"open").ParseProgram()
 	}
-	if m.Smart {
-		pb.WithSmartSemicolon(true)
+	pb := parser.NewBuilder(lb)
+	if bits&2 == 2 {
+		pb = pb.WithTolerantMode(m.Tolerant).WithSmartSemicolon(m.Smart)
+	} else {
+		if m.Tolerant {
+			pb.WithTolerantMode(true)
+		}
+		if m.Smart {
+			pb.WithSmartSemicolon(true)
+		}
 	}
 	return pb.Build(src)
+}
+
+var otherUsersOnce sync.Once
+
+// otherUsers runs, once per process and before the first parser of a check is
+// built, what other users of the library in the same process might have done:
+// builders with the plugin patterns of the repository's examples (a postfix
+// operator on a built-in token and nothing else, an infix operator on a dynamic
+// token, a prefix word operator, statement and expression interceptors), each
+// used for a parse and a compilation.  Instances share no state, so this must
+// not matter to anything that follows.
+func otherUsers() {
+	otherUsersOnce.Do(func() {
+		defer func() { recover() }()
+		{ // postfix-only builder (factorial example)
+			pb := parser.NewBuilder(lexer.NewBuilder())
+			_ = pb.RegisterPostfixOperator(token.NOT, func(tok token.Token, left ast.Expression) ast.Expression { return left })
+			prog, _ := pb.Build("let result = 5! + 2!").ParseProgram()
+			compiler.New().WithPrettyPrint(compiler.WithSemi(false)).WithSourceMap().Compile(prog)
+		}
+		{ // dynamic tokens: postfix-only, then infix, then prefix word operator
+			lb := lexer.NewBuilder()
+			hash, caret, typeofT := lb.RegisterTokenType("hash"), lb.RegisterTokenType("caret"), lb.RegisterTokenType("typeof")
+			lb.UseTokenInterceptor(func(l *lexer.Lexer, next func() token.Token) token.Token {
+				t := next()
+				switch {
+				case t.Type == token.ILLEGAL && t.Literal == "#":
+					t.Type = hash
+				case t.Type == token.ILLEGAL && t.Literal == "^":
+					t.Type = caret
+				case t.Type == token.IDENT && t.Literal == "typeof":
+					t.Type = typeofT
+				}
+				return t
+			})
+			pb := parser.NewBuilder(lb)
+			_ = pb.RegisterPostfixOperator(hash, func(tok token.Token, left ast.Expression) ast.Expression { return left })
+			pb.Build("a# + b#").ParseProgram()
+			_ = pb.RegisterInfixOperator(caret, 9, func(tok token.Token, left ast.Expression, right func() ast.Expression) ast.Expression {
+				right()
+				return left
+			})
+			_ = pb.RegisterPrefixOperator(typeofT, func(tok token.Token, right func() ast.Expression) ast.Expression { return right() })
+			pb.UseStatementInterceptor(func(p *parser.Parser, next func() ast.Statement) ast.Statement { return next() })
+			pb.UseExpressionInterceptor(func(p *parser.Parser, next func() ast.Expression) ast.Expression { return next() })
+			prog, _ := pb.WithTolerantMode(true).WithSmartSemicolon(true).Build("function f(a) { return typeof a ^ 2# }\n(f)(1) {").ParseProgram()
+			if prog != nil {
+				compiler.New().Compile(prog)
+			}
+		}
+	})
 }
 
 func parseX(src string, m Mode) (*ast.Program, []parser.ParserError, error) {
@@ -107,7 +181,49 @@ func (c Cfg) compiler() *compiler.Compiler {
 	return k
 }
 
-func compile(p *ast.Program, c Cfg) compiler.CompileResult { return c.compiler().Compile(p) }
+// invariantViolation is raised (as a panic, turned into a failure of the running
+// check by guardedCheck) when one of the configuration-independent guarantees
+// that every property quantifying over "all configurations" relies on is broken.
+type invariantViolation struct{ msg string }
+
+var (
+	primerOnce sync.Once
+	primerProg *ast.Program
+)
+
+// primer: a program that leaves every kind of state behind in a writer that is
+// not reset properly - nesting, comments, a multi-line literal, many names, and
+// a last statement whose semicolon the no-semicolon option omits.
+const primerSrc = "// header\nfunction primer(a, b) {\n  // inner\n  let s = `x  \n  y`\n  if (a) { return b }\n  return a\n}\nlet last = primer(1, 2)"
+
+// compile compiles p in configuration c with a fresh compiler and, on the way,
+// checks two guarantees: (1) a compiler value that has compiled something else
+// before gives the same result (code, mappings, names) as the fresh one;
+// (2) requesting a source map does not change the code.
+func compile(p *ast.Program, c Cfg) compiler.CompileResult {
+	res := c.compiler().Compile(p)
+	primerOnce.Do(func() {
+		primerProg, _ = parser.NewBuilder(lexer.NewBuilder()).Build(primerSrc).ParseProgram()
+	})
+	if primerProg != nil && p != nil {
+		used := c.compiler()
+		used.Compile(primerProg)
+		again := used.Compile(p)
+		if again.Code != res.Code || (res.SourceMap == nil) != (again.SourceMap == nil) || (res.SourceMap != nil && (res.SourceMap.Mappings != again.SourceMap.Mappings || fmt.Sprint(res.SourceMap.Names) != fmt.Sprint(again.SourceMap.Names))) {
+			am, rm := "", ""
+			if again.SourceMap != nil && res.SourceMap != nil {
+				am, rm = again.SourceMap.Mappings, res.SourceMap.Mappings
+			}
+			panic(invariantViolation{fmt.Sprintf("[%s] a compiler value that compiled another program before gives a different result than a fresh one\nfresh  %q %q\nreused %q %q", c, res.Code, rm, again.Code, am)})
+		}
+		twin := c
+		twin.Map = !c.Map
+		if other := twin.compiler().Compile(p).Code; other != res.Code {
+			panic(invariantViolation{fmt.Sprintf("[%s] requesting a source map changes the generated code\n%-30s %q\n%-30s %q", c, c.String(), res.Code, twin.String(), other)})
+		}
+	}
+	return res
+}
 
 // prettyCfgs: 10 indent units x 2 semicolon settings.
 func prettyCfgs() []Cfg {
